@@ -181,7 +181,7 @@ def c02(c):
     v = [('float.mt', ['-DVF_T=float']), ('double.mt', ['-DVF_T=double']), ('ldouble.mt', ['-DVF_T=long double']),
          ('double.minstd', ['-DVF_T=double', '-DVF_ENG=std::minstd_rand']), ('double.ranlux48', ['-DVF_T=double', '-DVF_ENG=std::ranlux48'])]
     c.std([dict(src='c02_estimator.cpp', build='asan', variants=v, shards={'quick': 3, 'thorough': 3})])
-    for k in ('iterations_judged', 'adjustment_entries_judged', 'bins_judged', 'runs_plain', 'runs_vegas', 'runs_multi_channel', 'finite_values_with_non_finite_product', 'zero_values_where_weight_is_not_finite', 'constructed_results_with_N>2^32'):
+    for k in ('iterations_judged', 'adjustment_entries_judged', 'bins_judged', 'runs_plain', 'runs_vegas', 'runs_multi_channel', 'finite_values_with_non_finite_product', 'zero_values_where_weight_is_not_finite', 'constructed_results_with_N>2^32', 'denormal_values'):
         c.require(k)
 
 
@@ -425,5 +425,5 @@ def c04(c):
     c.std(progs)
     _c04.real_mpirun(c)
     for k in ('iterations_compared', 'points_compared', 'bins_compared', 'collectives_checked', 'runs_mpi_plain', 'runs_mpi_vegas', 'runs_mpi_multi_channel',
-              'runs_stopped_early_by_target', 'real_mpirun_launches'):
+              'runs_stopped_early_by_target', 'real_mpirun_launches', 'iterations_with_more_than_2^24_calls'):
         c.require(k)
